@@ -13,15 +13,6 @@ type selOpts struct {
 	allowWith bool
 }
 
-func (g *gen) tableByName(name string) *Table {
-	for i := range Schema {
-		if Schema[i].Name == name {
-			return &Schema[i]
-		}
-	}
-	return nil
-}
-
 // selectStmt produces [WITH ...] core [compound ...] [ORDER BY] [LIMIT]; it
 // returns the tokens, the number of result columns (-1 when unknown) and
 // whether the ORDER BY fully determines the row order.
@@ -511,15 +502,13 @@ func (g *gen) tableItem(outer *scope, before []src) ([]string, src) {
 		out = append(out, g.id(alias))
 		s = src{qual: alias, cols: s.cols}
 	}
-	if s.base || true {
-		switch {
-		case s.qual == "t1" && s.base && g.p(4):
-			g.feat("indexed-by")
-			out = tk(out, g.kw("indexed by"), "i1")
-		case g.p(2):
-			g.feat("not-indexed")
-			out = tk(out, g.kw("not indexed"))
-		}
+	switch {
+	case s.qual == "t1" && s.base && g.p(4):
+		g.feat("indexed-by")
+		out = tk(out, g.kw("indexed by"), "i1")
+	case g.p(2):
+		g.feat("not-indexed")
+		out = tk(out, g.kw("not indexed"))
 	}
 	return out, s
 }
